@@ -23,6 +23,8 @@ import (
 )
 
 type Role struct {
+	partFresh map[string]bool
+	freshOnly bool
 	ID     string
 	Go     *ssa.Go
 	In     *ssa.Function // function holding the go statement
@@ -45,6 +47,9 @@ type RAccess struct {
 }
 
 type RaceEngine struct {
+	lingerMemo map[*Role]bool
+	distinctMemo map[FieldKey]bool
+	Why map[FieldKey]map[string]int // per field: how many access pairs each mechanism ordered
 	p       *Prog
 	Roles   []*Role
 	byID    map[string]*Role
@@ -56,6 +61,15 @@ type RaceEngine struct {
 	winFn   map[*ssa.Go]map[*ssa.Function]bool
 	preMemo map[string]*preInfo
 	runMemo map[*Role]bool
+	rv      *Rendezvous
+	runFn   map[*ssa.Function]bool
+	closeHB map[*ssa.Function]map[*Role]bool // function -> roles that have ended (closed their channel) before it runs
+	stars   []RAccess
+	starsDone bool
+	closesAtExit map[*Role][]FieldKey
+	sendsAtExit  map[*Role][]FieldKey
+	endsMemo map[*Role]bool
+	reqOnly map[*ssa.Function]bool // functions reachable only from request closures (never from block processing)
 	Notes   []string
 }
 
@@ -159,6 +173,8 @@ func NewRaceEngine(p *Prog, rv *Rendezvous) *RaceEngine {
 		e.byID[r.ID] = r
 		r.Reach = e.reach(r.Roots)
 	}
+	e.rv = rv
+	e.requestContext()
 	e.messageTypes()
 	for _, r := range e.Roles {
 		if r.Go != nil {
@@ -169,8 +185,186 @@ func NewRaceEngine(p *Prog, rv *Rendezvous) *RaceEngine {
 		}
 		e.locksets(r)
 	}
+	e.closeOrder()
 	e.collect()
 	return e
+}
+
+// closeOrder: a goroutine that closes channel C as its last action (deferred close in its root,
+// or close immediately followed by return) has finished everything else before another
+// goroutine observes C closed.  Functions called only from the "C is closed" branch of a
+// receive in role B are therefore ordered after every role that closes C at exit.
+func (e *RaceEngine) closeOrder() {
+	e.closeHB = map[*ssa.Function]map[*Role]bool{}
+	e.closesAtExit = map[*Role][]FieldKey{}
+	e.sendsAtExit = map[*Role][]FieldKey{}
+	closers := map[FieldKey][]*Role{}
+	for _, r := range e.Roles {
+		for _, root := range r.Roots {
+			Instrs(root, func(in ssa.Instruction) {
+				if snd, isSend := in.(*ssa.Send); isSend {
+					// a goroutine whose last action is a send (followed only by return) on a channel an
+					// ending role receives from does nothing after the hand-off
+					if k, ok := chanKey(snd.Chan); ok && onlyReturnFollows(in) {
+						e.sendsAtExit[r] = append(e.sendsAtExit[r], k)
+					}
+					return
+				}
+				cc := CallOf(in)
+				if cc == nil {
+					return
+				}
+				b, ok := cc.Value.(*ssa.Builtin)
+				if !ok || b.Name() != "close" {
+					return
+				}
+				k, ok := chanKey(cc.Args[0])
+				if !ok {
+					return
+				}
+				atExit := false
+				if _, isDefer := in.(*ssa.Defer); isDefer {
+					// deferred calls run last-in-first-out: the close is the goroutine's last action
+					// only if no other (non-trivial) defer was registered before it
+					atExit = true
+					Instrs(root, func(y ssa.Instruction) {
+						d, isD := y.(*ssa.Defer)
+						if !isD || y == in {
+							return
+						}
+						if InstrDominates(d, in) || !InstrDominates(in.(*ssa.Defer), d) {
+							if c := d.Call.StaticCallee(); c != nil && inModule(c) {
+								atExit = false
+							}
+						}
+					})
+				} else {
+					// followed only by return
+					blk := in.Block()
+					for i, x := range blk.Instrs {
+						if x == in {
+							rest := blk.Instrs[i+1:]
+							atExit = true
+							for _, y := range rest {
+								switch y.(type) {
+								case *ssa.Return, *ssa.RunDefers, *ssa.DebugRef:
+								default:
+									atExit = false
+								}
+							}
+						}
+					}
+				}
+				if atExit {
+					closers[k] = append(closers[k], r)
+					e.closesAtExit[r] = append(e.closesAtExit[r], k)
+				}
+			})
+		}
+	}
+	for _, r := range e.Roles {
+		for fn := range r.Reach {
+			// receives with comma-ok (plain or in a select) from a chan field
+			Instrs(fn, func(in ssa.Instruction) {
+				var k FieldKey
+				var okVal ssa.Value
+				switch x := in.(type) {
+				case *ssa.UnOp:
+					if x.Op != token.ARROW || !x.CommaOk {
+						return
+					}
+					kk, ok := chanKey(x.X)
+					if !ok {
+						return
+					}
+					k = kk
+					for _, ref := range *x.Referrers() {
+						if ex, ok := ref.(*ssa.Extract); ok && ex.Index == 1 {
+							okVal = ex
+						}
+					}
+				case *ssa.Select:
+					for _, st := range x.States {
+						if st.Dir == types.RecvOnly {
+							if kk, ok := chanKey(st.Chan); ok && len(closers[kk]) > 0 {
+								k = kk
+							}
+						}
+					}
+					for _, ref := range *x.Referrers() {
+						if ex, ok := ref.(*ssa.Extract); ok && ex.Index == 1 {
+							okVal = ex
+						}
+					}
+				default:
+					return
+				}
+				if okVal == nil || len(closers[k]) == 0 {
+					return
+				}
+				// blocks entered when ok is false: If(cond involving !ok) -- find Ifs whose condition depends on okVal
+				region := map[*ssa.BasicBlock]bool{}
+				for _, b := range fn.Blocks {
+					iff, isIf := b.Instrs[len(b.Instrs)-1].(*ssa.If)
+					if !isIf || !dependsOn(iff.Cond, okVal) {
+						continue
+					}
+					// the successor from which the receive cannot be repeated without leaving: take the branch
+					// that contains a close/return path: heuristic = the branch where ok is false: cond is NOT ok or (x || !ok)
+					neg := false
+					if u, ok := iff.Cond.(*ssa.UnOp); ok && u.Op == token.NOT && u.X == okVal {
+						neg = true
+					}
+					var entry *ssa.BasicBlock
+					if neg {
+						entry = b.Succs[0]
+					} else if iff.Cond == okVal {
+						entry = b.Succs[1]
+					} else {
+						continue
+					}
+					for _, x := range fn.Blocks {
+						if x == entry || entry.Dominates(x) {
+							region[x] = true
+						}
+					}
+				}
+				// short-circuit forms (a == nil || !ok): the block evaluating !ok jumps to the same target as its predecessor test
+				if len(region) == 0 {
+					return
+				}
+				inRegion := map[*ssa.Function]bool{}
+				outRegion := map[*ssa.Function]bool{}
+				for _, b := range fn.Blocks {
+					for _, x := range b.Instrs {
+						if _, isGo := x.(*ssa.Go); isGo || CallOf(x) == nil {
+							continue
+						}
+						for _, c := range e.p.callees(x) {
+							for f := range e.reach([]*ssa.Function{c}) {
+								if region[b] {
+									inRegion[f] = true
+								} else {
+									outRegion[f] = true
+								}
+							}
+						}
+					}
+				}
+				for f := range inRegion {
+					if outRegion[f] {
+						continue
+					}
+					if e.closeHB[f] == nil {
+						e.closeHB[f] = map[*Role]bool{}
+					}
+					for _, cl := range closers[k] {
+						e.closeHB[f][cl] = true
+					}
+				}
+			})
+		}
+	}
 }
 
 // channelJoined: every path of the goroutine sends on a channel made in the spawning
@@ -255,6 +449,87 @@ func derefType(t types.Type) types.Type {
 	return t
 }
 
+// requestContext: request closures run in the core goroutine while the issuing RPC handler
+// is blocked on the rendezvous; with one client that orders them with everything the RPC
+// goroutine does.  A function is in request context when it is reachable from request
+// closures but not from the core loop by any other route.
+func (e *RaceEngine) requestContext() {
+	e.reqOnly = map[*ssa.Function]bool{}
+	core := e.p.Func("", "", "CoreLoop")
+	if core == nil || e.rv == nil {
+		return
+	}
+	isClosure := map[*ssa.Function]bool{}
+	for _, c := range e.rv.Closures {
+		isClosure[c] = true
+	}
+	// the fire-and-forget path queues its closure from a goroutine of its own: not synchronous
+	for _, cs := range e.rv.CallSites {
+		if cs.Parent() == nil {
+			continue
+		}
+		if _, started := goStarted(cs.Parent()); !started {
+			continue
+		}
+		args := cs.Common().Args
+		fns, _ := ResolveFuncs(args[len(args)-1])
+		for _, c := range fns {
+			if isClosure[c] {
+				delete(isClosure, c)
+				e.Notes = append(e.Notes, "request closure "+FuncName(c)+" is also queued from a goroutine of its own ("+FuncName(cs.Parent())+", fire-and-forget mode): not treated as synchronous with the RPC goroutine")
+			}
+		}
+	}
+	other := map[*ssa.Function]bool{}
+	var visit func(f *ssa.Function)
+	visit = func(f *ssa.Function) {
+		if f == nil || other[f] || f.Blocks == nil || !inModule(f) || isClosure[f] {
+			return
+		}
+		other[f] = true
+		Instrs(f, func(in ssa.Instruction) {
+			if _, isGo := in.(*ssa.Go); isGo {
+				return
+			}
+			if CallOf(in) == nil {
+				return
+			}
+			for _, c := range e.p.callees(in) {
+				visit(c)
+			}
+		})
+	}
+	visit(core)
+	for c := range isClosure {
+		for f := range e.reach([]*ssa.Function{c}) {
+			if !other[f] {
+				e.reqOnly[f] = true
+			}
+		}
+	}
+}
+
+// goStarted: is fn the callee of a go statement?
+func goStarted(fn *ssa.Function) (*ssa.Go, bool) {
+	par := fn.Parent()
+	if par == nil {
+		return nil, false
+	}
+	var g *ssa.Go
+	Instrs(par, func(in ssa.Instruction) {
+		if x, ok := in.(*ssa.Go); ok {
+			if fns, ok := ResolveFuncs(x.Call.Value); ok {
+				for _, f := range fns {
+					if f == fn {
+						g = x
+					}
+				}
+			}
+		}
+	})
+	return g, g != nil
+}
+
 // messageTypes: struct types that travel through channels (element types of chan-typed fields,
 // parameters and make(chan) sites), and the struct types they contain by value or through slices.
 func (e *RaceEngine) messageTypes() {
@@ -279,11 +554,7 @@ func (e *RaceEngine) messageTypes() {
 			}
 			e.msgTy[n] = true
 			for i := 0; i < st.NumFields(); i++ {
-				ft := st.Field(i).Type()
-				if _, isPtr := ft.(*types.Pointer); isPtr {
-					continue
-				}
-				add(ft, d+1)
+				add(st.Field(i).Type(), d+1) // what a message points to travels with it
 			}
 		}
 	}
@@ -423,10 +694,24 @@ func (e *RaceEngine) partitionTypes(r *Role) map[string]bool {
 				}
 				continue
 			}
+			if sl, isSl := ft.(*types.Slice); isSl {
+				if pt, isPtr := sl.Elem().(*types.Pointer); isPtr {
+					if e.onlyFreshElemStores(FieldKey{name, f.Name()}) {
+						add(pt.Elem(), d+1)
+					}
+					continue
+				}
+			}
 			add(ft, d+1)
 		}
 	}
 	for _, a := range r.Go.Call.Args {
+		if !e.perInstanceArg(r, a) {
+			if _, isPtr := a.Type().(*types.Pointer); isPtr {
+				e.Notes = append(e.Notes, fmt.Sprintf("go statement of %s: argument %s is not a per-iteration element or fresh object: treated as shared by all instances", r.ID, a.Name()))
+			}
+			continue
+		}
 		if _, isPtr := a.Type().(*types.Pointer); isPtr {
 			add(a.Type(), 0)
 		}
@@ -445,10 +730,241 @@ func (e *RaceEngine) partitionTypes(r *Role) map[string]bool {
 		}
 	}
 	// the receiver of a method started with `go x.m()` in a loop over distinct objects
-	if r.Go.Call.StaticCallee() != nil && r.Go.Call.StaticCallee().Signature.Recv() != nil && len(r.Go.Call.Args) > 0 {
+	if r.Go.Call.StaticCallee() != nil && r.Go.Call.StaticCallee().Signature.Recv() != nil && len(r.Go.Call.Args) > 0 && e.perInstanceArg(r, r.Go.Call.Args[0]) {
 		add(r.Go.Call.Args[0].Type(), 0)
 	}
 	return out
+}
+
+// perInstanceArg: the value passed to the go statement differs for every instance of the role:
+// an element of a slice/map selected by the induction variable of the loop around the go
+// statement (for pointer elements the container must hold distinct objects), or an object
+// freshly allocated for this instance.
+func (e *RaceEngine) perInstanceArg(r *Role, v ssa.Value) bool {
+	induction := func(idx ssa.Value) bool {
+		for i := 0; i < 4; i++ {
+			switch x := idx.(type) {
+			case *ssa.Phi:
+				return true
+			case *ssa.BinOp:
+				if _, isC := x.Y.(*ssa.Const); isC {
+					idx = x.X
+					continue
+				}
+				return false
+			case *ssa.Convert:
+				idx = x.X
+			case *ssa.Extract: // key of a map/string range
+				_, isNext := x.Tuple.(*ssa.Next)
+				return isNext
+			default:
+				return false
+			}
+		}
+		return false
+	}
+	distinctContainer := func(c ssa.Value) bool {
+		// a slice of pointers held in a field: every element ever stored must be a fresh object,
+		// or the slice is appended to only with fresh objects / elements of another such slice
+		u, ok := c.(*ssa.UnOp)
+		if !ok {
+			return true // local container built in this function
+		}
+		k, isF := fieldKeyOfAddr(u.X)
+		if !isF {
+			return true
+		}
+		return e.distinctElems(k, 0)
+	}
+	switch x := v.(type) {
+	case *ssa.Alloc:
+		return true
+	case *ssa.Call:
+		c := x.Call.StaticCallee()
+		return c != nil && returnsFresh(c)
+	}
+	if r.freshOnly {
+		if mi, ok := v.(*ssa.MakeInterface); ok {
+			return e.perInstanceArg(r, mi.X)
+		}
+		return false
+	}
+	switch x := v.(type) {
+	case *ssa.IndexAddr: // &container[i]
+		return r.Multi && InLoop(r.Go) && induction(x.Index)
+	case *ssa.UnOp: // container[i] loaded
+		ia, ok := x.X.(*ssa.IndexAddr)
+		if !ok || !induction(ia.Index) {
+			return false
+		}
+		return distinctContainer(ia.X)
+	case *ssa.Extract: // value of a map range
+		_, isNext := x.Tuple.(*ssa.Next)
+		return isNext
+	case *ssa.MakeInterface:
+		return e.perInstanceArg(r, x.X)
+	}
+	return false
+}
+
+// distinctElems: every pointer ever put into the slice field is a distinct object: stored or
+// appended values are fresh allocations, constructor results, or elements of another distinct slice/map.
+func (e *RaceEngine) distinctElems(k FieldKey, depth int) bool {
+	if depth > 3 {
+		return false
+	}
+	if v, ok := e.distinctMemo[k]; ok {
+		return v
+	}
+	if e.distinctMemo == nil {
+		e.distinctMemo = map[FieldKey]bool{}
+	}
+	e.distinctMemo[k] = true // optimistic for cycles
+	ok := true
+	n := 0
+	var freshVal func(v ssa.Value, d int) bool
+	freshVal = func(v ssa.Value, d int) bool {
+		if d > 6 {
+			return false
+		}
+		switch x := v.(type) {
+		case *ssa.Alloc:
+			return true
+		case *ssa.Const:
+			return true
+		case *ssa.Call:
+			c := x.Call.StaticCallee()
+			return c != nil && returnsFresh(c)
+		case *ssa.Extract:
+			if call, isCall := x.Tuple.(*ssa.Call); isCall {
+				c := call.Call.StaticCallee()
+				return c != nil && returnsFresh(c) && x.Index == 0
+			}
+			if _, isNext := x.Tuple.(*ssa.Next); isNext {
+				return true // values of a map range: distinct keys; the map's values are assumed distinct objects (see note)
+			}
+			if ta, isTA := x.Tuple.(*ssa.TypeAssert); isTA {
+				return freshVal(ta.X, d+1)
+			}
+		case *ssa.MakeInterface:
+			return freshVal(x.X, d+1)
+		case *ssa.ChangeInterface:
+			return freshVal(x.X, d+1)
+		case *ssa.TypeAssert:
+			return freshVal(x.X, d+1)
+		case *ssa.Lookup: // m[key] with key varying per iteration
+			return true
+		case *ssa.UnOp:
+			if ia, isIA := x.X.(*ssa.IndexAddr); isIA {
+				if u, isU := ia.X.(*ssa.UnOp); isU {
+					if kk, isF := fieldKeyOfAddr(u.X); isF {
+						return e.distinctElems(kk, depth+1)
+					}
+				}
+				return true
+			}
+		}
+		return false
+	}
+	for _, fn := range e.p.LibFuncs() {
+		Instrs(fn, func(in ssa.Instruction) {
+			st, isSt := in.(*ssa.Store)
+			if !isSt {
+				return
+			}
+			// element store
+			if ia, isIA := st.Addr.(*ssa.IndexAddr); isIA {
+				if u, isU := ia.X.(*ssa.UnOp); isU {
+					if kk, isF := fieldKeyOfAddr(u.X); isF && kk == k {
+						n++
+						if !freshVal(st.Val, 0) {
+							ok = false
+						}
+					}
+				}
+				return
+			}
+			kk, isF := fieldKeyOfAddr(st.Addr)
+			if !isF || kk != k {
+				return
+			}
+			n++
+			// whole-slice store: make(...), nil, slice[:0] of itself, or append(self, fresh...)
+			val := st.Val
+			for i := 0; i < 4; i++ {
+				if sl, isSl := val.(*ssa.Slice); isSl {
+					val = sl.X
+					continue
+				}
+				break
+			}
+			switch x := val.(type) {
+			case *ssa.MakeSlice, *ssa.Const, *ssa.Alloc:
+			case *ssa.UnOp:
+				if k2, isF2 := fieldKeyOfAddr(x.X); !isF2 || (k2 != k && !e.distinctElems(k2, depth+1)) {
+					ok = false
+				}
+			case *ssa.Call:
+				if b, isB := x.Call.Value.(*ssa.Builtin); isB && b.Name() == "append" && len(x.Call.Args) == 2 {
+					// append(s, elems...): the variadic slice is built from stores into a fresh array
+					if !e.appendedFresh(x.Call.Args[1], freshVal) {
+						ok = false
+					}
+				} else {
+					ok = false
+				}
+			case *ssa.Phi:
+				// loop-carried append chains: every edge is the field itself, a make, or an append of fresh values
+				for _, ed := range x.Edges {
+					switch y := ed.(type) {
+					case *ssa.MakeSlice, *ssa.Const:
+					case *ssa.Phi:
+					case *ssa.Call:
+						if b, isB := y.Call.Value.(*ssa.Builtin); !isB || b.Name() != "append" || !e.appendedFresh(y.Call.Args[1], freshVal) {
+							ok = false
+						}
+					default:
+						ok = false
+					}
+				}
+			default:
+				ok = false
+			}
+		})
+	}
+	res := ok && n > 0
+	e.distinctMemo[k] = res
+	return res
+}
+
+// appendedFresh: the variadic argument of append is a slice over a fresh array whose stored
+// elements are all fresh values.
+func (e *RaceEngine) appendedFresh(arg ssa.Value, freshVal func(ssa.Value, int) bool) bool {
+	sl, ok := arg.(*ssa.Slice)
+	if !ok {
+		return false
+	}
+	arr, ok := sl.X.(*ssa.Alloc)
+	if !ok {
+		return false
+	}
+	good := true
+	n := 0
+	for _, ref := range *arr.Referrers() {
+		ia, isIA := ref.(*ssa.IndexAddr)
+		if !isIA {
+			continue
+		}
+		for _, r2 := range *ia.Referrers() {
+			if st, isSt := r2.(*ssa.Store); isSt && st.Addr == ia {
+				n++
+				if !freshVal(st.Val, 0) {
+					good = false
+				}
+			}
+		}
+	}
+	return good && n > 0
 }
 
 func (e *RaceEngine) onlyFreshStores(k FieldKey) bool {
@@ -473,6 +989,85 @@ func (e *RaceEngine) onlyFreshStores(k FieldKey) bool {
 				}
 			case *ssa.Call:
 				// constructor result (NewWriter ...): a function whose returns are fresh allocations
+				c := v.Call.StaticCallee()
+				if c == nil || !returnsFresh(c) {
+					ok = false
+				}
+			case *ssa.Extract:
+				call, isCall := v.Tuple.(*ssa.Call)
+				if !isCall || call.Call.StaticCallee() == nil || !returnsFresh(call.Call.StaticCallee()) || v.Index != 0 {
+					ok = false
+				}
+			default:
+				// a pointer into memory owned by the same object (e.g. &x.buf[0] stored into x.p)
+				if !derivedFromSameObject(st) {
+					ok = false
+				}
+			}
+		})
+	}
+	return ok && n > 0
+}
+
+// derivedFromSameObject: the stored pointer is computed from an address inside the object
+// whose field is being assigned.
+func derivedFromSameObject(st *ssa.Store) bool {
+	base := addrRoot(st.Addr)
+	v := st.Val
+	for i := 0; i < 8; i++ {
+		switch x := v.(type) {
+		case *ssa.Convert:
+			v = x.X
+			continue
+		case *ssa.ChangeType:
+			v = x.X
+			continue
+		case *ssa.IndexAddr:
+			v = x.X
+			continue
+		case *ssa.FieldAddr:
+			if addrRoot(x) == base {
+				return true
+			}
+			v = x.X
+			continue
+		case *ssa.UnOp:
+			if x.Op == token.MUL {
+				v = x.X
+				continue
+			}
+		}
+		break
+	}
+	return v == base
+}
+
+// onlyFreshElemStores: every element stored into the slice field is a freshly allocated object.
+func (e *RaceEngine) onlyFreshElemStores(k FieldKey) bool {
+	n := 0
+	ok := true
+	for _, fn := range e.p.LibFuncs() {
+		Instrs(fn, func(in ssa.Instruction) {
+			st, isSt := in.(*ssa.Store)
+			if !isSt {
+				return
+			}
+			ia, isIA := st.Addr.(*ssa.IndexAddr)
+			if !isIA {
+				return
+			}
+			u, isU := ia.X.(*ssa.UnOp)
+			if !isU {
+				return
+			}
+			kk, isF := fieldKeyOfAddr(u.X)
+			if !isF || kk != k {
+				return
+			}
+			n++
+			switch v := st.Val.(type) {
+			case *ssa.Alloc:
+			case *ssa.Call:
 				c := v.Call.StaticCallee()
 				if c == nil || !returnsFresh(c) {
 					ok = false
@@ -657,13 +1252,115 @@ func (e *RaceEngine) collect() {
 			}
 			held := heldAt(fn, entry)
 			for _, a := range DirectAccesses(fn) {
+				if e.freshBase(a.Instr) {
+					continue // a private copy returned by a function that allocates its result
+				}
+				if e.requestObject(fn, a.Instr) {
+					continue // the decoded request / reply object of this very RPC call
+				}
+				ra := RAccess{a.Key, a.Write, a.Instr, fn, held[a.Instr], r}
+				if u, ok := a.Instr.(*ssa.UnOp); ok && u.Op == token.MUL && a.Key.Field != "*" {
+					if nt, ok := u.Type().(*types.Named); ok {
+						if _, isSt := nt.Underlying().(*types.Struct); isSt && nt.Obj().Pkg() != nil && strings.HasPrefix(nt.Obj().Pkg().Path(), modPath) {
+							e.stars = append(e.stars, RAccess{FieldKey{ownerName(nt), "*"}, false, a.Instr, fn, held[a.Instr], r})
+						}
+					}
+				}
 				if a.Key.Field == "*" {
+					e.stars = append(e.stars, ra)
 					continue
 				}
-				e.acc[a.Key] = append(e.acc[a.Key], RAccess{a.Key, a.Write, a.Instr, fn, held[a.Instr], r})
+				e.acc[a.Key] = append(e.acc[a.Key], ra)
 			}
 		}
 	}
+}
+
+// freshBase: the accessed object is the result of a call whose every target returns a fresh allocation.
+func (e *RaceEngine) freshBase(in ssa.Instruction) bool {
+	var addr ssa.Value
+	switch x := in.(type) {
+	case *ssa.Store:
+		addr = x.Addr
+	case *ssa.UnOp:
+		addr = x.X
+	case *ssa.Field:
+		addr = x.X
+	default:
+		return false
+	}
+	root := addrRoot(addr)
+	if u, ok := root.(*ssa.UnOp); ok && u.Op == token.MUL {
+		// pointer held in a local cell: the single stored value
+		if a, ok := u.X.(*ssa.Alloc); ok {
+			var v ssa.Value
+			n := 0
+			for _, ref := range *a.Referrers() {
+				if st, ok := ref.(*ssa.Store); ok && st.Addr == ssa.Value(a) {
+					v = st.Val
+					n++
+				}
+			}
+			if n == 1 {
+				root = v
+			}
+		}
+	}
+	call, ok := root.(*ssa.Call)
+	if !ok {
+		return false
+	}
+	cs := e.p.callees(call)
+	if len(cs) == 0 {
+		return false
+	}
+	for _, c := range cs {
+		u := Unwrap(c)
+		if u == nil || !returnsFresh(u) {
+			return false
+		}
+	}
+	return true
+}
+
+// requestObject: the access goes through the argument or reply parameter of an RPC handler
+// (objects decoded / allocated by net/rpc for this one call).
+func (e *RaceEngine) requestObject(fn *ssa.Function, in ssa.Instruction) bool {
+	isHandler := false
+	for _, h := range e.rv.Handlers {
+		if h == fn {
+			isHandler = true
+		}
+	}
+	if !isHandler || len(fn.Params) < 3 {
+		return false
+	}
+	var addr ssa.Value
+	switch x := in.(type) {
+	case *ssa.Store:
+		addr = x.Addr
+	case *ssa.UnOp:
+		addr = x.X
+	case *ssa.Field:
+		addr = x.X
+	default:
+		return false
+	}
+	root := addrRoot(addr)
+	for i := 0; i < 3; i++ {
+		if u, ok := root.(*ssa.UnOp); ok && u.Op == token.MUL {
+			root = addrRoot(u.X)
+			// captured/spilled parameter cell
+			if a, ok := root.(*ssa.Alloc); ok {
+				for _, ref := range *a.Referrers() {
+					if st, ok := ref.(*ssa.Store); ok && st.Addr == ssa.Value(a) {
+						root = st.Val
+					}
+				}
+			}
+		}
+	}
+	return root == ssa.Value(fn.Params[1]) || root == ssa.Value(fn.Params[2])
 }
 
 // ---- concurrency ------------------------------------------------------------------------
@@ -804,12 +1501,8 @@ func (e *RaceEngine) runPhase(r *Role) bool {
 			res = true
 		}
 	}
-	if r.In != nil {
-		for f := r.In; f != nil; f = f.Parent() {
-			if f.Name() == "StartRun" || f.Name() == "getNextBlock" {
-				res = true
-			}
-		}
+	if r.In != nil && e.runFuncs()[r.In] {
+		res = true
 	}
 	for _, par := range e.parents(r) {
 		if e.runPhase(par) {
@@ -818,6 +1511,174 @@ func (e *RaceEngine) runPhase(r *Role) bool {
 	}
 	e.runMemo[r] = res
 	return res
+}
+
+// runFuncs: functions reachable from the core loop and from the sources' StartRun / getNextBlock.
+func (e *RaceEngine) runFuncs() map[*ssa.Function]bool {
+	if e.runFn != nil {
+		return e.runFn
+	}
+	var roots []*ssa.Function
+	for _, fn := range e.p.LibFuncs() {
+		if fn.Parent() == nil && (fn.Name() == "CoreLoop" || fn.Name() == "StartRun" || fn.Name() == "getNextBlock") {
+			roots = append(roots, fn)
+		}
+	}
+	e.runFn = e.reach(roots)
+	// include closures lexically inside those functions (goroutine bodies)
+	for f := range e.runFn {
+		for _, a := range Anons(f) {
+			e.runFn[a] = true
+		}
+	}
+	return e.runFn
+}
+
+// endsWithRun: the role has finished by the time the core loop returns (and hence by the time
+// the run-done barrier opens and the state can be Inactive again): the core loop itself,
+// goroutines joined inside an ending role, and goroutines whose last action is closing a
+// channel that an ending role receives from.
+// chanKeyDeep: like chanKey, but also sees through a local holding the result of a call
+// whose targets all return one chan-typed field (nextBlock := ds.getNextBlock()).
+func (e *RaceEngine) chanKeyDeep(v ssa.Value, depth int) (FieldKey, bool) {
+	if k, ok := chanKey(v); ok {
+		return k, true
+	}
+	if depth > 3 {
+		return FieldKey{}, false
+	}
+	switch x := v.(type) {
+	case *ssa.Phi:
+		var res FieldKey
+		found := false
+		for _, ed := range x.Edges {
+			if k, ok := e.chanKeyDeep(ed, depth+1); ok {
+				res, found = k, true
+			}
+		}
+		return res, found
+	case *ssa.Call:
+		var res FieldKey
+		found := false
+		for _, c := range e.p.callees(x) {
+			u := Unwrap(c)
+			if u == nil || u.Blocks == nil {
+				continue
+			}
+			Instrs(u, func(in ssa.Instruction) {
+				if ret, ok := in.(*ssa.Return); ok && len(ret.Results) == 1 {
+					if k, ok := chanKey(ret.Results[0]); ok {
+						res, found = k, true
+					}
+				}
+			})
+		}
+		return res, found
+	}
+	return FieldKey{}, false
+}
+
+func (e *RaceEngine) endsWithRun(r *Role) bool {
+	if e.endsMemo == nil {
+		e.endsMemo = map[*Role]bool{}
+		for iter := 0; iter < 6; iter++ {
+			for _, x := range e.Roles {
+				if e.endsMemo[x] {
+					continue
+				}
+				if isCoreRole(x) {
+					e.endsMemo[x] = true
+					continue
+				}
+				if x.bounded() {
+					for _, par := range e.parents(x) {
+						if e.endsMemo[par] {
+							e.endsMemo[x] = true
+						}
+					}
+				}
+				for _, k := range append(append([]FieldKey{}, e.closesAtExit[x]...), e.sendsOnEveryExit(x)...) {
+					for _, q := range e.Roles {
+						if !e.endsMemo[q] || q == x {
+							continue
+						}
+						for f := range q.Reach {
+							Instrs(f, func(in ssa.Instruction) {
+								switch y := in.(type) {
+								case *ssa.UnOp:
+									if y.Op == token.ARROW {
+										if kk, ok := e.chanKeyDeep(y.X, 0); ok && kk == k {
+											e.endsMemo[x] = true
+										}
+									}
+								case *ssa.Select:
+									for _, st := range y.States {
+										if st.Dir == types.RecvOnly {
+											if kk, ok := e.chanKeyDeep(st.Chan, 0); ok && kk == k {
+												e.endsMemo[x] = true
+											}
+										}
+									}
+								}
+							})
+						}
+					}
+				}
+			}
+		}
+	}
+	return e.endsMemo[r]
+}
+
+// sendsOnEveryExit: channels on which the role's root sends as its last action on every path
+// to a return (the root has no other way to finish).
+func (e *RaceEngine) sendsOnEveryExit(r *Role) []FieldKey {
+	if len(e.sendsAtExit[r]) == 0 || len(r.Roots) != 1 {
+		return nil
+	}
+	root := r.Roots[0]
+	ok := true
+	Instrs(root, func(in ssa.Instruction) {
+		if _, isRet := in.(*ssa.Return); !isRet {
+			return
+		}
+		// the instruction before the return (ignoring RunDefers) must be a send
+		blk := in.Block()
+		prev := ssa.Instruction(nil)
+		for _, x := range blk.Instrs {
+			if x == in {
+				break
+			}
+			if _, isRD := x.(*ssa.RunDefers); isRD {
+				continue
+			}
+			prev = x
+		}
+		if _, isSend := prev.(*ssa.Send); !isSend {
+			ok = false
+		}
+	})
+	if !ok {
+		return nil
+	}
+	return e.sendsAtExit[r]
+}
+
+func onlyReturnFollows(in ssa.Instruction) bool {
+	blk := in.Block()
+	for i, x := range blk.Instrs {
+		if x == in {
+			for _, y := range blk.Instrs[i+1:] {
+				switch y.(type) {
+				case *ssa.Return, *ssa.RunDefers, *ssa.DebugRef:
+				default:
+					return false
+				}
+			}
+			return true
+		}
+	}
+	return false
 }
 
 // afterRunBarrier: the access executes only after a call of the run-done barrier wait
@@ -888,7 +1749,30 @@ func (e *RaceEngine) afterRunBarrier(a RAccess) bool {
 // inactiveOnly: the access is dominated, in its function, by a test establishing that the
 // source's life-cycle state is Inactive (constant 0): no run is in progress.
 func (e *RaceEngine) inactiveOnly(a RAccess) bool {
-	b := a.Instr.Block()
+	if e.inactiveAt(a.Instr) {
+		return true
+	}
+	// a helper all of whose call sites in the role sit behind the Inactive test
+	n := e.p.CallGraph().Nodes[a.Fn]
+	if n == nil {
+		return false
+	}
+	cnt := 0
+	for _, edge := range n.In {
+		c := edge.Caller.Func
+		if edge.Site == nil || c == nil || !a.Role.Reach[c] {
+			continue
+		}
+		cnt++
+		if !e.inactiveAt(edge.Site) {
+			return false
+		}
+	}
+	return cnt > 0
+}
+
+func (e *RaceEngine) inactiveAt(at ssa.Instruction) bool {
+	b := at.Block()
 	for d := b.Idom(); d != nil; d = d.Idom() {
 		iff, ok := d.Instrs[len(d.Instrs)-1].(*ssa.If)
 		if !ok {
@@ -955,18 +1839,21 @@ func (e *RaceEngine) mayRunDuringD(a RAccess, r *Role, depth int) (bool, string)
 		}
 	}
 	if s == r {
-		if !r.Multi {
+		if !r.Multi && !e.lingers(r) {
 			return false, "same single-instance goroutine"
 		}
-		if r.PartTy[a.Key.Owner] {
-			return false, "per-instance object of a fork-join role"
+		if e.partOf(r)[a.Key.Owner] {
+			return false, "per-instance object of a multi-instance role"
 		}
 		return true, ""
 	}
 	if ta, tr := sourceTag(a.Fn), roleTag(r); ta != "" && tr != "" && ta != tr {
 		return false, "different source types never run together"
 	}
-	if e.runPhase(r) {
+	if r.ID == "rpc" && e.reqOnly[a.Fn] && isCoreRole(s) {
+		return false, "request context: the RPC goroutine is blocked on the rendezvous while this runs"
+	}
+	if e.runPhase(r) && e.endsWithRun(r) {
 		if e.afterRunBarrier(a) {
 			return false, "after the run-done barrier"
 		}
@@ -986,13 +1873,110 @@ func (e *RaceEngine) mayRunDuringD(a RAccess, r *Role, depth int) (bool, string)
 			}
 			return false, "outside the fork-join window of the spawner"
 		}
+		if c.Scoped {
+			if e.after[c.Go][a.Instr] || e.afterFn[c.Go][a.Fn] {
+				return true, ""
+			}
+			return false, "outside the spawning function's collect-results window"
+		}
 		pi := e.pre(s, c)
 		if pi.instr[a.Instr] || pi.fn[a.Fn] {
+			// an earlier instance of a goroutine that outlives its spawner may still be running
+			if l := e.chainLingers(c, r); l != nil && !e.partOf(l)[a.Key.Owner] {
+				return true, ""
+			}
 			return false, "executed by the spawner before the go statement"
 		}
 		return true, ""
 	}
+	if hb := e.closeHB[a.Fn]; hb != nil && hb[r] {
+		return false, "runs only after the other goroutine closed its channel at exit"
+	}
 	return true, ""
+}
+
+// lingers: instances started by successive executions of the spawning function can overlap:
+// the goroutine is neither joined by its spawner nor known to end with the run, and its
+// spawner is code that runs repeatedly (reachable from an RPC handler or another goroutine).
+func (e *RaceEngine) lingers(r *Role) bool {
+	if r.Go == nil {
+		return false
+	}
+	if v, ok := e.lingerMemo[r]; ok {
+		return v
+	}
+	if e.lingerMemo == nil {
+		e.lingerMemo = map[*Role]bool{}
+	}
+	e.lingerMemo[r] = false
+	res := false
+	if !r.bounded() && !e.endsWithRun(r) {
+		for _, o := range e.Roles {
+			if o.Reach[r.In] {
+				res = true
+			}
+		}
+	}
+	e.lingerMemo[r] = res
+	return res
+}
+
+// chainLingers: some role on the spawn chain from c (a direct child of s) down to r lingers;
+// returns that role.
+func (e *RaceEngine) chainLingers(c, r *Role) *Role {
+	seen := map[*Role]bool{}
+	var up func(x *Role) *Role
+	up = func(x *Role) *Role {
+		if seen[x] {
+			return nil
+		}
+		seen[x] = true
+		if e.lingers(x) {
+			return x
+		}
+		if x == c {
+			return nil
+		}
+		for _, par := range e.parents(x) {
+			if par == c || e.childOnPath(c, par) != nil {
+				if l := up(par); l != nil {
+					return l
+				}
+			}
+		}
+		return nil
+	}
+	return up(r)
+}
+
+// partOf: the struct types whose objects belong to one instance of the role.  For a lingering
+// role the instances to tell apart are those of successive spawns, so only objects allocated
+// for this spawn count (a container element may be handed to the next generation again).
+func (e *RaceEngine) partOf(r *Role) map[string]bool {
+	if r.Go == nil {
+		return nil
+	}
+	if e.lingers(r) {
+		if r.partFresh == nil {
+			r.freshOnly = true
+			r.partFresh = e.partitionTypes(r)
+			r.freshOnly = false
+		}
+		return r.partFresh
+	}
+	if r.PartTy == nil {
+		r.PartTy = e.partitionTypes(r)
+	}
+	return r.PartTy
+}
+
+func isCoreRole(r *Role) bool {
+	for _, rt := range r.Roots {
+		if rt.Name() == "CoreLoop" {
+			return true
+		}
+	}
+	return false
 }
 
 func roleTag(r *Role) string {
@@ -1007,6 +1991,180 @@ func roleTag(r *Role) string {
 	return ""
 }
 
+// capturedBase: the accessed object is reached through a captured variable of the closure.
+func capturedBase(in ssa.Instruction) bool {
+	var addr ssa.Value
+	switch x := in.(type) {
+	case *ssa.Store:
+		addr = x.Addr
+	case *ssa.UnOp:
+		addr = x.X
+	case *ssa.Field:
+		addr = x.X
+	default:
+		return false
+	}
+	root := addrRoot(addr)
+	for i := 0; i < 4; i++ {
+		switch x := root.(type) {
+		case *ssa.FreeVar:
+			return true
+		case *ssa.UnOp:
+			if x.Op == token.MUL {
+				root = addrRoot(x.X)
+				continue
+			}
+		case *ssa.IndexAddr:
+			root = addrRoot(x.X)
+			continue
+		}
+		break
+	}
+	_, isFV := root.(*ssa.FreeVar)
+	return isFV
+}
+
+// ownElement: a store/load of container[i] where i is a parameter of the goroutine's own
+// function (each instance addresses its own element).
+func ownElement(a RAccess) bool {
+	var addr ssa.Value
+	switch x := a.Instr.(type) {
+	case *ssa.Store:
+		addr = x.Addr
+	case *ssa.UnOp:
+		addr = x.X
+	default:
+		return false
+	}
+	for i := 0; i < 4; i++ {
+		switch x := addr.(type) {
+		case *ssa.FieldAddr:
+			addr = x.X
+			continue
+		case *ssa.IndexAddr:
+			if prm, ok := x.Index.(*ssa.Parameter); ok {
+				for _, rt := range a.Role.Roots {
+					if prm.Parent() == rt {
+						return true
+					}
+				}
+			}
+			return false
+		}
+		break
+	}
+	return false
+}
+
+// localEverywhere: the access goes through a pointer parameter of its function, and every
+// call site of that function inside the role passes the address of a local that never escapes
+// (a value built and consumed by one call chain).
+func (e *RaceEngine) localEverywhere(a RAccess, other *Role) bool {
+	var addr ssa.Value
+	switch x := a.Instr.(type) {
+	case *ssa.Store:
+		addr = x.Addr
+	case *ssa.UnOp:
+		addr = x.X
+	default:
+		return false
+	}
+	prm, ok := addrRoot(addr).(*ssa.Parameter)
+	if !ok {
+		return false
+	}
+	idx := -1
+	for i, q := range a.Fn.Params {
+		if q == prm {
+			idx = i
+		}
+	}
+	if idx < 0 {
+		return false
+	}
+	n := e.p.CallGraph().Nodes[a.Fn]
+	if n == nil {
+		return false
+	}
+	cnt := 0
+	for _, edge := range n.In {
+		c := edge.Caller.Func
+		if edge.Site == nil || c == nil || !a.Role.Reach[c] {
+			continue
+		}
+		cnt++
+		cc := edge.Site.Common()
+		args := cc.Args
+		if cc.IsInvoke() {
+			return false
+		}
+		if idx >= len(args) {
+			return false
+		}
+		al, isAlloc := args[idx].(*ssa.Alloc)
+		if !isAlloc {
+			// a call site passing a shared object counts only if it can run during the other role
+			if ok, _ := e.mayRunDuring(RAccess{Key: a.Key, Instr: edge.Site, Fn: c, Role: a.Role}, other); !ok {
+				continue
+			}
+			return false
+		}
+		// the local's address is used only for field access, loads, stores and this kind of call
+		for _, ref := range *al.Referrers() {
+			switch ref.(type) {
+			case *ssa.FieldAddr, *ssa.UnOp, *ssa.Store, *ssa.Call, *ssa.DebugRef:
+			default:
+				return false
+			}
+		}
+	}
+	return cnt > 0
+}
+
+// chanOrdered: access a precedes, in its function, a close of / send on channel K, and access b
+// follows, in its function, a receive from K: a happens-before b.
+func (e *RaceEngine) chanOrdered(a, b RAccess) bool {
+	var sigs []FieldKey
+	Instrs(a.Fn, func(in ssa.Instruction) {
+		var ch ssa.Value
+		switch x := in.(type) {
+		case *ssa.Send:
+			ch = x.Chan
+		case *ssa.Call:
+			if bi, ok := x.Call.Value.(*ssa.Builtin); ok && bi.Name() == "close" {
+				ch = x.Call.Args[0]
+			}
+		}
+		if ch == nil {
+			return
+		}
+		if k, ok := chanKey(ch); ok && InstrDominates(a.Instr, in) && a.Instr != in {
+			// a must not be re-executed after the signal on a path that does not signal again: same-function dominance
+			sigs = append(sigs, k)
+		}
+	})
+	if len(sigs) == 0 {
+		return false
+	}
+	ok := false
+	Instrs(b.Fn, func(in ssa.Instruction) {
+		u, isU := in.(*ssa.UnOp)
+		if !isU || u.Op != token.ARROW {
+			return
+		}
+		k, isK := chanKey(u.X)
+		if !isK || !InstrDominates(in, b.Instr) {
+			return
+		}
+		for _, s := range sigs {
+			if s == k {
+				ok = true
+			}
+		}
+	})
+	return ok
+}
+
 type Conflict struct {
 	Key  FieldKey
 	A, B RAccess
@@ -1015,6 +2173,31 @@ type Conflict struct {
 // Conflicts lists concurrent access pairs with a write and no common lock.
 func (e *RaceEngine) Conflicts(ordered func(a, b RAccess) string) []Conflict {
 	var out []Conflict
+	if e.Why == nil {
+		e.Why = map[FieldKey]map[string]int{}
+	}
+	why := func(k FieldKey, r string) {
+		if r == "" {
+			r = "not concurrent"
+		}
+		if e.Why[k] == nil {
+			e.Why[k] = map[string]int{}
+		}
+		e.Why[k][r]++
+	}
+	// whole-struct copies/stores touch every field of the struct
+	if !e.starsDone {
+		e.starsDone = true
+		for _, sa := range e.stars {
+			for k := range e.acc {
+				if k.Owner == sa.Key.Owner && !strings.HasSuffix(k.Field, "[]") {
+					x := sa
+					x.Key = k
+					e.acc[k] = append(e.acc[k], x)
+				}
+			}
+		}
+	}
 	var keys []FieldKey
 	for k := range e.acc {
 		keys = append(keys, k)
@@ -1033,19 +2216,44 @@ func (e *RaceEngine) Conflicts(ordered func(a, b RAccess) string) []Conflict {
 					continue
 				}
 				if len(intersect(a.Locks, b.Locks)) > 0 {
+					why(k, "common mutex")
 					continue
 				}
-				if ok, _ := e.mayRunDuring(a, b.Role); !ok {
+				if ok, r := e.mayRunDuring(a, b.Role); !ok {
+					why(k, r)
 					continue
 				}
-				if ok, _ := e.mayRunDuring(b, a.Role); !ok {
+				if ok, r := e.mayRunDuring(b, a.Role); !ok {
+					why(k, r)
 					continue
 				}
-				// ownership transfer: fields of message types conflict only between sibling instances
-				if e.msgTy[k.Owner] && a.Role != b.Role {
+				// ownership transfer: fields of message types conflict only between sibling
+				// instances, and then only when the object is one they all share (captured)
+				if e.msgTy[k.Owner] {
+					if a.Role != b.Role {
+						why(k, "message type: ownership moves with the send")
+						continue
+					}
+					if !capturedBase(a.Instr) && !capturedBase(b.Instr) {
+						why(k, "message type: siblings touch their own message")
+						continue
+					}
+				}
+				// sibling instances writing distinct elements selected by their own parameter
+				if a.Role == b.Role && a.Role.Multi && ownElement(a) && ownElement(b) {
+					why(k, "siblings index by their own parameter")
+					continue
+				}
+				if e.localEverywhere(a, b.Role) || e.localEverywhere(b, a.Role) {
+					why(k, "object is a non-escaping local of one call chain")
+					continue
+				}
+				if e.chanOrdered(a, b) || e.chanOrdered(b, a) {
+					why(k, "write precedes a close/send, access follows the receive")
 					continue
 				}
 				if ordered != nil && ordered(a, b) != "" {
+					why(k, "phase table")
 					continue
 				}
 				w, o := a, b
